@@ -591,7 +591,7 @@ func hashAlgFor(devicePubKey, ownerPubKey crypto.PublicKey) (protocol.HashAlg, e
 	case 384:
 		return protocol.Sha384Hash, nil
 	default:
-		panic("only hash sizes of 256 and 384 are included in FDO")
+		return 0, fmt.Errorf("unsupported attestation key size: only hash sizes of 256 and 384 are included in FDO")
 	}
 }
 
